@@ -199,6 +199,7 @@ func checkMain(args []string) int {
 			knownBy[k.Obligation] = k
 		}
 	}
+	retryUnknown(run.Obls, 3*slowOf(tier))
 	// classify
 	var discharged, counted, violations int
 	var samples []any
